@@ -283,7 +283,14 @@ class Interp(OpsMixin, BuiltinsMixin):
         pass
 
     def st_Assert(self, s, frame):
-        pass
+        # `python -O` removes assert statements, test expression and all (self.strip_asserts models that run)
+        self.saw_assert = True
+        if getattr(self, "strip_asserts", False):
+            return
+        v = self.eval(s.test, frame)
+        if not self.truth(v, s.test, frame):
+            msg = self.eval(s.msg, frame) if s.msg is not None else None
+            raise PyRaise(Instance(self.bclasses["AssertionError"], (msg,) if msg is not None else ()), s, frame.where(s))
 
     def st_Import(self, s, frame):
         for a in s.names:
@@ -614,7 +621,7 @@ class Interp(OpsMixin, BuiltinsMixin):
                     if self.handler_matches(h, e, frame):
                         handled = True
                         if h.name:
-                            frame.locals[h.name] = e.exc
+                            self.bind_name(h.name, e.exc, frame)
                         old = getattr(frame, "handling", None)
                         frame.handling = e
                         try:
